@@ -503,7 +503,9 @@ func (r *ResyncManagerDCP) Run(ctx context.Context, options ResyncOptions, persi
 func (r *ResyncManagerDCP) invalidatePrincipals(ctx context.Context, db *DatabaseContext, regenerateSequences bool) error {
 	// If the principal docs sequences are regenerated, or the user doc need to be invalidated after a dynamic channel grant, db.QueryPrincipals is called to find the principal docs.
 	// In the case that a database is created with "start_offline": true, it is possible the index needed to create this is not yet ready, so make sure it is ready for use.
-	if !db.UseViews() && ((regenerateSequences && r.hasAllCollections) || r.DocsChanged() > 0) {
+	// Principals are invalidated after every completed run: documents may have been rewritten by an earlier, interrupted
+	// run (stopped, then restarted with reset or a different collection set), which the counters of this run don't show.
+	if !db.UseViews() {
 		err := initializePrincipalDocsIndex(ctx, db)
 		if err != nil {
 			return err
@@ -516,21 +518,19 @@ func (r *ResyncManagerDCP) invalidatePrincipals(ctx context.Context, db *Databas
 		}
 	}
 
-	if r.DocsChanged() > 0 {
-		endSeq, err := db.sequences.getSequence(ctx)
-		if err != nil {
-			return err
-		}
+	endSeq, err := db.sequences.getSequence(ctx)
+	if err != nil {
+		return err
+	}
 
-		collectionNames := make(base.ScopeAndCollectionNames, 0)
-		for _, databaseCollection := range db.CollectionByID {
-			collectionNames = append(collectionNames, databaseCollection.ScopeAndCollectionName())
-		}
-		// No-op if the principal is already invalidated at an earlier sequence.
-		err = db.invalidateAllPrincipals(ctx, collectionNames, endSeq)
-		if err != nil {
-			return fmt.Errorf("Could not invalidate principal documents: %w", err)
-		}
+	collectionNames := make(base.ScopeAndCollectionNames, 0)
+	for _, databaseCollection := range db.CollectionByID {
+		collectionNames = append(collectionNames, databaseCollection.ScopeAndCollectionName())
+	}
+	// No-op if the principal is already invalidated at an earlier sequence.
+	err = db.invalidateAllPrincipals(ctx, collectionNames, endSeq)
+	if err != nil {
+		return fmt.Errorf("Could not invalidate principal documents: %w", err)
 	}
 	return nil
 }
